@@ -331,6 +331,19 @@ pub broadcast axiom fn ax_consts_inf()
 pub broadcast axiom fn ax_consts_nan()
     ensures #![trigger nan(NAN)] nan(NAN);
 
+// usize <-> f64 casts (rule R29)
+/// `n as f64` for a usize n
+pub uninterp spec fn u2f(n: usize) -> f64;
+#[verifier::external_body]
+pub fn usize_to_f64(n: usize) -> (r: f64) ensures r == u2f(n) { unimplemented!() }
+/// M2: the cast is exact (true below 2^53)
+pub broadcast axiom fn ax_u2f(n: usize) ensures fin(#[trigger] u2f(n)), rv(u2f(n)) == n as real;
+/// `x.ceil() as usize` (saturating, NaN -> 0): a deterministic function of x, otherwise unconstrained
+pub uninterp spec fn ceil_usize_s(x: f64) -> usize;
+#[verifier::external_body]
+pub fn ceil_to_usize(x: f64) -> (r: usize) ensures r == ceil_usize_s(x) { unimplemented!() }
+/// `a.max(b)` on usize
+pub fn usize_max(a: usize, b: usize) -> (r: usize) ensures r == (if a >= b { a } else { b }) { if a >= b { a } else { b } }
 // i8 -> f64 cast (sign corrections); rule R13 rewrites `x as f64` to `i8_to_f64(x)`
 #[verifier::external_body]
 pub fn i8_to_f64(a: i8) -> (r: f64)
@@ -348,7 +361,7 @@ pub broadcast group group_m2 {
     ax_add, ax_sub, ax_mul, ax_div, ax_rem, ax_cmp, ax_eq,
     ax_add_nonfin, ax_sub_nonfin, ax_mul_nonfin,
     ax_fneg_spec, ax_abs, ax_signum, ax_rem_euclid, ax_max, ax_to_radians, ax_pi,
-    ax_sin, ax_cos, ax_pyth, ax_atan2, ax_sqrt,
+    ax_sin, ax_cos, ax_pyth, ax_atan2, ax_sqrt, ax_u2f,
     ax_consts, ax_consts_inf, ax_consts_nan, ax_consts_ninf, ax_i8_cast,
 }
 } // mod fl
